@@ -138,6 +138,22 @@ pub fn random(args: &[String]) -> i32 {
         let mut rcvd: Vec<u64> = vec![];
         let mut lowest_ok = 0u64; // conservative: never register below what may have been rotated
         let mut next_k = 0u64;
+        if run % 8 == 1 {
+            // range-count boundary: >= 64 additional ranges, capacities swept over the exact sizes
+            let n = rng.range(66, 90);
+            let stride = rng.range(2, 3);
+            for i in 0..n {
+                ops.push(json!(["d", i * stride]));
+                ops.push(json!(["r", i * stride, rng.below(2)]));
+            }
+            let largest = (n - 1) * stride;
+            let lo = rng.range(110, 128);
+            for (k, cap) in (lo..lo + 34).enumerate() {
+                ops.push(json!(["g", k, largest, cap]));
+            }
+            out.emit(&Value::Array(ops));
+            continue;
+        }
         let many = run % 4 == 0;
         let span = if many { rng.range(130, 260) } else { rng.range(6, 40) };
         let steps = if many { rng.range(100, 180) } else { rng.range(10, 50) };
